@@ -152,6 +152,7 @@ register("EBR-DEFAULT-COLLECTOR", rules_wrap.rule_default_collector)
 register("CW-DEFER-WRAPPER", rules_wrap.rule_defer_wrapper)
 register("EBR-INIT", rules_wrap.rule_ebr_init)
 register("EBR-TUNABLES", rules_wrap.rule_tunables)
+register("DBG-PURE", rules_wrap.rule_dbg_pure)
 register("ORD-COUNT", rules_ord.rule_ord_count)
 register("ORD-EPOCH", rules_ord.rule_ord_epoch)
 register("ORD-QUEUE", rules_ord.rule_ord_queue)
@@ -193,7 +194,8 @@ for _p, _rules in (("C01", ["CW-ALLOC-INIT", "CW-DEFER-WRAPPER"]), ("C02", ["EBR
                    ("C13", ["WRAP-ATOMICS", "EBR-DEFAULT-COLLECTOR", "CW-DEFER-WRAPPER"]),
                    ("C14", ["WRAP-ATOMICS", "EBR-DEFAULT-COLLECTOR"]), ("C17", ["WRAP-ATOMICS"]), ("C18", ["WRAP-ATOMICS"]),
                    ("C20", ["EBR-DEFAULT-COLLECTOR"]),
-                   ("C04", ["EBR-PIN-PROGRESS"]), ("C15", ["EBR-PIN-PROGRESS"]),
+                   ("C04", ["EBR-PIN-PROGRESS", "DBG-PURE"]), ("C15", ["EBR-PIN-PROGRESS", "DBG-PURE"]),
+                   ("C05", ["DBG-PURE"]), ("C13", ["DBG-PURE"]), ("C16", ["DBG-PURE"]), ("C01", ["DBG-PURE"]),
                    # "user tags are preserved exactly and truncated to the alignment bits" (C08/C09) is the bit-level round trip;
                    # "the reference upgrade returns obeys C02" (C05) includes the signature that ties it to the guard
                    ("C08", ["BIT-TAGGED"]), ("C09", ["BIT-TAGGED"]), ("C05", ["TY-SIG"]),
